@@ -22,6 +22,11 @@ from symlib.common import generic_replay, twin_of
 from symlib.symblock import World
 from symlib.world import tok, TX, BLK
 
+def _repo_root() -> str:
+    import os
+    return os.environ.get("VERIF_REPO", "/repo").rstrip("/")
+
+
 META = {
     "explanation": "Gate: validate_block_in_coinstate on an otherwise valid candidate at each checkpointed height with a symbolic id "
                    "(accepted => id == checkpoint); a forged spend one above the horizon is rejected. Anchor: the recorded real blocks "
@@ -142,7 +147,7 @@ def recorded_blocks(with_fork_head: bool = False):
     g = dt.Block.deserialize(gen.genesis_block_data)
     if g.hash().hex() != ch.KNOWN_HASHES[0] or hmod.sha256d(g.header.serialize()).hex() != ch.KNOWN_HASHES[0]:
         problems.append("genesis id != checkpoint 0")
-    d = "/repo/tests/testdata/chain"
+    d = _repo_root() + "/tests/testdata/chain"
     blocks = []
     for fn in sorted(os.listdir(d)):
         b = dt.Block.deserialize(open(os.path.join(d, fn), "rb").read())
